@@ -184,8 +184,14 @@ def check_call(ev, contract, func, args, check_frame=True):
     call_args = [_clone(args[k]) for k in names]
     inputs = _arrays(call_args)      # arrays reachable from the arguments before the call
     exc = None
+    flat = []
+    for (p_, t_), v_ in zip(contract.params, call_args):
+        if isinstance(t_, tuple) and t_ and t_[0] == 'varargs':
+            flat.extend(list(v_))            # *name parameter: the tuple is spread over the positional arguments
+        else:
+            flat.append(v_)
     try:
-        result = func(*call_args)
+        result = func(*flat)
     except Exception as e:          # noqa
         exc = e
         result = None
